@@ -1,1 +1,710 @@
-//! E3 — process-level scenarios (filled in later).
+//! E3 — process-level scenario engine with scripted fake generators (fault injection).
+//!
+//! Runs the REAL `slicec` binary (built from /repo/slicec/src/main.rs, sibling of `current_exe()`) on one
+//! *scenario* inside a fresh private scratch directory and returns everything that can be observed from outside.
+//!
+//! # API
+//!
+//! * [`Scenario`] — `tree`: relative path → [`Node`] (`File(bytes)`, `Dir`, `Symlink(target)`) materialised below the
+//!   work directory (input files, pre-existing output directories/files; regular files get the fixed old mtime
+//!   [`OLD_MTIME_S`] so that "rewritten" is visible whatever the clock granularity); `gens`: the fake generators
+//!   ([`Gen`] = name + [`Install`]: `Script(..)`, `Missing`, `NotExecutable`); `argv`: the slicec arguments;
+//!   `env`: extra environment.  Placeholders expanded in `argv` and `env` values: `{work}` (= `{scratch}`, absolute
+//!   work directory = cwd of slicec), `{gendir}`, `{genN}` (absolute path of generator N), `{relgenN}`
+//!   (`../gen/<name>`, relative to the cwd).
+//! * [`Script`] = list of [`Step`]s (`ReadAll`, `Read(n)`, `CloseStdin`, `Sleep(ms)`, `Stdout(bytes)`,
+//!   `Stderr(bytes)`, `CloseStdout`, `Exit(code)`, `Kill(signal)`), executed by `/verif/mc/src/bin/fakegen.rs`.
+//! * [`run`]`(&Scenario, timeout) -> `[`Obs`] — creates a [`Scratch`], runs, removes it.  [`run_in`] does the same in
+//!   a caller-created [`Scratch`] (needed when the scenario must contain the absolute scratch path, e.g. an absolute
+//!   output path inside a generator reply): `let s = Scratch::new(); let sc = build(s.work()); run_in(&s, &sc, t)`.
+//! * [`Obs`] — `exit_code`, `signal`, `timed_out` (watchdog fired: the whole process group was SIGKILLed), `stdout`,
+//!   `stderr`, `wall`, `gens` (per generator [`GenObs`]: path as spelled by `{genN}`, `started` count, captured
+//!   `stdin`, `done`), `before` / `after` ([`Tree`] snapshots of the work directory: relative path → [`Entry`] with
+//!   kind, contents, inode, mtime in ns, mode), `argv` (expanded).  Helpers: [`Obs::error_lines`],
+//!   [`Obs::panic_location`], [`Obs::changed_paths`].
+//! * Reply / request helpers written from the Compiler schema (/repo/slice/Compiler/CodeGenerator.slice) on top of
+//!   the independent reference codec (`refcodec`): [`enc_size`], [`enc_str`], [`enc_raw_str`], [`encode_reply`],
+//!   [`decode_reply`], [`encode_arguments`], [`split_request`] (captured stdin = request ++ own arguments),
+//!   [`gen_spec`] (renders a `-G` value with escaping).
+//!
+//! Layout of a scratch directory `<tmp>/mc-e3-<pid>-<counter>/`: `work/` (cwd of slicec; only this is
+//! snapshotted) and `gen/` (hard links of `fakegen` + `<name>.script`, `.started`, `.stdin`, `.done`).
+//! Determinism: stdin of slicec is /dev/null, colours are forced off (`NO_COLOR=1`, `CLICOLOR_FORCE=0`),
+//! `RUST_BACKTRACE=0`; every scenario has its own directory, so scenarios can run in parallel worker processes.
+//! `VERIF_E3_DEBUG=1` prints every run's observation summary on stderr (useful with `mc <ID> --case ...`).
+
+use crate::refcodec::{ref_decode, ref_var, Rd, Ty, V};
+use serde_json::{json, Value};
+use std::collections::BTreeMap;
+use std::io::Read;
+use std::os::unix::fs::{MetadataExt, PermissionsExt};
+use std::os::unix::process::{CommandExt, ExitStatusExt};
+use std::path::{Path, PathBuf};
+use std::process::{Command, Stdio};
+use std::sync::atomic::{AtomicBool, AtomicU64, Ordering};
+use std::sync::Arc;
+use std::time::{Duration, Instant, SystemTime};
+
+/// Modification time (seconds since the epoch) given to every regular file the engine materialises.
+pub const OLD_MTIME_S: u64 = 1_000_000_000;
+
+// ------------------------------------------------------------------------------------------------------------
+// Scenario description
+
+#[derive(Clone, Debug, PartialEq)]
+pub enum Node {
+    File(Vec<u8>),
+    Dir,
+    Symlink(String),
+}
+
+#[derive(Clone, Debug, PartialEq)]
+pub enum Step {
+    /// read stdin until EOF (slicec closes a generator's stdin only when it starts collecting that generator)
+    ReadAll,
+    /// read exactly n bytes (or until EOF)
+    Read(usize),
+    CloseStdin,
+    /// explicit delay point
+    Sleep(u64),
+    Stdout(Vec<u8>),
+    Stderr(Vec<u8>),
+    CloseStdout,
+    Exit(i32),
+    /// kill itself with this signal (default disposition, no core file)
+    Kill(i32),
+}
+
+#[derive(Clone, Debug, PartialEq, Default)]
+pub struct Script(pub Vec<Step>);
+
+#[derive(Clone, Debug, PartialEq)]
+pub enum Install {
+    Script(Script),
+    /// the path given to slicec does not exist
+    Missing,
+    /// the path exists but is a regular file without any execute bit
+    NotExecutable,
+}
+
+#[derive(Clone, Debug, PartialEq)]
+pub struct Gen {
+    pub name: String,
+    pub install: Install,
+}
+
+#[derive(Clone, Debug, Default)]
+pub struct Scenario {
+    pub tree: Vec<(String, Node)>,
+    pub gens: Vec<Gen>,
+    pub argv: Vec<String>,
+    pub env: Vec<(String, String)>,
+}
+
+pub fn hex(b: &[u8]) -> String {
+    let mut s = String::with_capacity(b.len() * 2);
+    for x in b {
+        s.push_str(&format!("{x:02x}"));
+    }
+    s
+}
+
+/// Bytes for humans: text if printable UTF-8, otherwise hex; long values are abbreviated.
+pub fn show_bytes(b: &[u8]) -> String {
+    let printable = std::str::from_utf8(b).ok().filter(|s| s.chars().all(|c| c == '\n' || c == '\t' || !c.is_control()));
+    let (tag, body) = match printable {
+        Some(s) => ("text", s.to_string()),
+        None => ("hex", hex(b)),
+    };
+    if body.chars().count() > 240 {
+        let head: String = body.chars().take(160).collect();
+        let tail: String = body.chars().rev().take(40).collect::<Vec<_>>().into_iter().rev().collect();
+        format!("{tag}[{} bytes]:{head}…{tail}", b.len())
+    } else {
+        format!("{tag}:{body}")
+    }
+}
+
+impl Step {
+    /// The form `fakegen` reads.
+    pub fn to_json(&self) -> Value {
+        match self {
+            Step::ReadAll => json!({"op":"read_all"}),
+            Step::Read(n) => json!({"op":"read","n":n}),
+            Step::CloseStdin => json!({"op":"close_stdin"}),
+            Step::Sleep(ms) => json!({"op":"sleep","ms":ms}),
+            Step::Stdout(b) => json!({"op":"stdout","hex":hex(b)}),
+            Step::Stderr(b) => json!({"op":"stderr","hex":hex(b)}),
+            Step::CloseStdout => json!({"op":"close_stdout"}),
+            Step::Exit(c) => json!({"op":"exit","code":c}),
+            Step::Kill(s) => json!({"op":"kill","signal":s}),
+        }
+    }
+    /// Short human readable form for `describe()`.
+    pub fn show(&self) -> String {
+        match self {
+            Step::ReadAll => "read-all-stdin".into(),
+            Step::Read(n) => format!("read {n} bytes"),
+            Step::CloseStdin => "close-stdin".into(),
+            Step::Sleep(ms) => format!("sleep {ms}ms"),
+            Step::Stdout(b) => match decode_reply(b) {
+                Some((files, diags, used)) => format!(
+                    "stdout {} (decodes as reply: files={:?} diagnostics={:?}{})",
+                    show_bytes(b),
+                    files.iter().map(|f| (f.path.as_str(), crate::util::truncate(&f.contents, 60))).collect::<Vec<_>>(),
+                    diags.iter().map(|d| (d.level, d.message.as_str(), d.source.as_deref())).collect::<Vec<_>>(),
+                    if used < b.len() { format!(" + {} trailing bytes", b.len() - used) } else { String::new() }
+                ),
+                None => format!("stdout {} (does not decode as a reply)", show_bytes(b)),
+            },
+            Step::Stderr(b) => format!("stderr {}", show_bytes(b)),
+            Step::CloseStdout => "close-stdout".into(),
+            Step::Exit(c) => format!("exit {c}"),
+            Step::Kill(s) => format!("kill-self signal {s}"),
+        }
+    }
+}
+
+impl Script {
+    pub fn to_json(&self) -> Value {
+        json!({"steps": self.0.iter().map(|s| s.to_json()).collect::<Vec<_>>()})
+    }
+    pub fn show(&self) -> Vec<String> {
+        self.0.iter().map(|s| s.show()).collect()
+    }
+}
+
+impl Scenario {
+    /// Rendering for `describe()` / replay files: argv (placeholders unexpanded), files, generator scripts.
+    pub fn to_json(&self) -> Value {
+        json!({
+            "slicec_argv": self.argv,
+            "env": self.env,
+            "work_dir_tree": self.tree.iter().map(|(p, n)| match n {
+                Node::File(b) => json!({"path": p, "file": show_bytes(b)}),
+                Node::Dir => json!({"path": p, "dir": true}),
+                Node::Symlink(t) => json!({"path": p, "symlink_to": t}),
+            }).collect::<Vec<_>>(),
+            "generators": self.gens.iter().enumerate().map(|(i, g)| json!({
+                "placeholder": format!("{{gen{i}}}"),
+                "name": g.name,
+                "install": match &g.install {
+                    Install::Script(s) => json!({"script": s.show()}),
+                    Install::Missing => json!("missing executable"),
+                    Install::NotExecutable => json!("file without execute permission"),
+                },
+            })).collect::<Vec<_>>(),
+        })
+    }
+}
+
+// ------------------------------------------------------------------------------------------------------------
+// Scratch directory
+
+static COUNTER: AtomicU64 = AtomicU64::new(0);
+
+/// A private directory `<tmp>/mc-e3-<pid>-<counter>/{work,gen}`, removed on drop (also during unwinding).
+pub struct Scratch {
+    root: PathBuf,
+}
+
+impl Scratch {
+    pub fn new() -> Scratch {
+        let n = COUNTER.fetch_add(1, Ordering::SeqCst);
+        let root = std::env::temp_dir().join(format!("mc-e3-{}-{}", std::process::id(), n));
+        let _ = std::fs::remove_dir_all(&root);
+        std::fs::create_dir_all(root.join("work")).expect("create scratch work dir");
+        std::fs::create_dir_all(root.join("gen")).expect("create scratch gen dir");
+        Scratch { root }
+    }
+    pub fn root(&self) -> &Path {
+        &self.root
+    }
+    /// cwd of slicec; the only part that is snapshotted.
+    pub fn work(&self) -> PathBuf {
+        self.root.join("work")
+    }
+    pub fn gendir(&self) -> PathBuf {
+        self.root.join("gen")
+    }
+    pub fn gen_path(&self, name: &str) -> PathBuf {
+        self.root.join("gen").join(name)
+    }
+}
+
+impl Drop for Scratch {
+    fn drop(&mut self) {
+        // make everything removable again (a scenario may have produced read-only directories)
+        fn fix(p: &Path) {
+            if let Ok(md) = std::fs::symlink_metadata(p) {
+                if md.is_dir() {
+                    let _ = std::fs::set_permissions(p, std::fs::Permissions::from_mode(0o755));
+                    if let Ok(rd) = std::fs::read_dir(p) {
+                        for e in rd.flatten() {
+                            fix(&e.path());
+                        }
+                    }
+                }
+            }
+        }
+        if std::fs::remove_dir_all(&self.root).is_err() {
+            fix(&self.root);
+            let _ = std::fs::remove_dir_all(&self.root);
+        }
+    }
+}
+
+// ------------------------------------------------------------------------------------------------------------
+// Observations
+
+#[derive(Clone, Debug, PartialEq, Eq)]
+pub enum Kind {
+    File,
+    Dir,
+    Symlink,
+    Other,
+}
+
+#[derive(Clone, Debug, PartialEq, Eq)]
+pub struct Entry {
+    pub kind: Kind,
+    /// file bytes, or the link target for a symlink; empty for directories
+    pub contents: Vec<u8>,
+    pub inode: u64,
+    pub mtime_ns: i128,
+    pub mode: u32,
+}
+
+pub type Tree = BTreeMap<String, Entry>;
+
+#[derive(Clone, Debug)]
+pub struct GenObs {
+    pub name: String,
+    /// the absolute path (`{genN}`)
+    pub path: String,
+    /// how many times the executable was started (0 = never)
+    pub started: u32,
+    /// everything it read from stdin (None if it never started)
+    pub stdin: Option<Vec<u8>>,
+    /// the script ran to its end (exit / self-kill); false if never started or killed from outside
+    pub done: bool,
+}
+
+#[derive(Clone, Debug)]
+pub struct Obs {
+    pub exit_code: Option<i32>,
+    pub signal: Option<i32>,
+    pub timed_out: bool,
+    pub stdout: Vec<u8>,
+    pub stderr: Vec<u8>,
+    pub wall: Duration,
+    pub gens: Vec<GenObs>,
+    pub before: Tree,
+    pub after: Tree,
+    pub argv: Vec<String>,
+    pub work_dir: String,
+}
+
+impl Obs {
+    pub fn stderr_text(&self) -> String {
+        String::from_utf8_lossy(&self.stderr).to_string()
+    }
+    pub fn stdout_text(&self) -> String {
+        String::from_utf8_lossy(&self.stdout).to_string()
+    }
+    /// Lines of stderr that open an Error diagnostic in the human format (`error [E...]: ...`).
+    pub fn error_lines(&self) -> Vec<String> {
+        self.stderr_text().lines().filter(|l| l.starts_with("error [")).map(|l| l.to_string()).collect()
+    }
+    pub fn warning_lines(&self) -> Vec<String> {
+        self.stderr_text().lines().filter(|l| l.starts_with("warning [")).map(|l| l.to_string()).collect()
+    }
+    /// `Some(file:line)` if slicec's stderr shows a Rust panic.
+    pub fn panic_location(&self) -> Option<String> {
+        let t = self.stderr_text();
+        let i = t.find("panicked at ")?;
+        let rest = &t[i + 12..];
+        let loc: String = rest.chars().take_while(|c| !c.is_whitespace()).collect();
+        let loc = loc.trim_end_matches(':').to_string();
+        // drop the column: file:line:col -> file:line
+        let parts: Vec<&str> = loc.split(':').collect();
+        let loc = if parts.len() >= 3 { format!("{}:{}", parts[0], parts[1]) } else { loc };
+        Some(crate::util::short_path(&loc))
+    }
+    /// Paths of the work directory that were created, removed or modified (kind, contents, inode or mtime)
+    /// by the run.  Directories whose only change is their own mtime are not listed.
+    pub fn changed_paths(&self) -> Vec<String> {
+        let mut out = vec![];
+        for (p, a) in &self.after {
+            match self.before.get(p) {
+                None => out.push(p.clone()),
+                Some(b) => {
+                    let same = if a.kind == Kind::Dir && b.kind == Kind::Dir { a.inode == b.inode } else { a == b };
+                    if !same {
+                        out.push(p.clone());
+                    }
+                }
+            }
+        }
+        for p in self.before.keys() {
+            if !self.after.contains_key(p) {
+                out.push(p.clone());
+            }
+        }
+        out.sort();
+        out
+    }
+    /// Compact rendering for violation messages.
+    pub fn summary(&self) -> String {
+        format!(
+            "exit={:?} signal={:?} timed_out={} wall={:?} stderr={:?} stdout={:?} gens=[{}] changed={:?}",
+            self.exit_code,
+            self.signal,
+            self.timed_out,
+            self.wall,
+            crate::util::truncate(&self.stderr_text(), 900),
+            crate::util::truncate(&self.stdout_text(), 300),
+            self.gens.iter().map(|g| format!("{}:started={},stdin={:?},done={}", g.name, g.started, g.stdin.as_ref().map(|s| s.len()), g.done)).collect::<Vec<_>>().join(" "),
+            self.changed_paths(),
+        )
+    }
+}
+
+pub fn snapshot(dir: &Path) -> Tree {
+    fn walk(base: &Path, dir: &Path, out: &mut Tree) {
+        let Ok(rd) = std::fs::read_dir(dir) else { return };
+        for e in rd.flatten() {
+            let p = e.path();
+            let Ok(md) = std::fs::symlink_metadata(&p) else { continue };
+            let rel = p.strip_prefix(base).unwrap().to_string_lossy().to_string();
+            let ft = md.file_type();
+            let (kind, contents) = if ft.is_symlink() {
+                (Kind::Symlink, std::fs::read_link(&p).map(|t| t.to_string_lossy().as_bytes().to_vec()).unwrap_or_default())
+            } else if ft.is_dir() {
+                (Kind::Dir, vec![])
+            } else if ft.is_file() {
+                (Kind::File, std::fs::read(&p).unwrap_or_default())
+            } else {
+                (Kind::Other, vec![])
+            };
+            let is_dir = kind == Kind::Dir;
+            out.insert(rel, Entry { kind, contents, inode: md.ino(), mtime_ns: md.mtime() as i128 * 1_000_000_000 + md.mtime_nsec() as i128, mode: md.mode() });
+            if is_dir {
+                walk(base, &p, out);
+            }
+        }
+    }
+    let mut t = Tree::new();
+    walk(dir, dir, &mut t);
+    t
+}
+
+// ------------------------------------------------------------------------------------------------------------
+// Running
+
+fn sibling(name: &str) -> PathBuf {
+    let exe = std::env::current_exe().expect("current_exe");
+    exe.parent().expect("exe dir").join(name)
+}
+
+fn expand(s: &str, scratch: &Scratch, sc: &Scenario) -> String {
+    let mut o = s.replace("{work}", &scratch.work().display().to_string());
+    o = o.replace("{scratch}", &scratch.work().display().to_string());
+    o = o.replace("{gendir}", &scratch.gendir().display().to_string());
+    for (i, g) in sc.gens.iter().enumerate().rev() {
+        o = o.replace(&format!("{{gen{i}}}"), &scratch.gen_path(&g.name).display().to_string());
+        o = o.replace(&format!("{{relgen{i}}}"), &format!("../gen/{}", g.name));
+    }
+    o
+}
+
+fn materialise(scratch: &Scratch, sc: &Scenario) {
+    let work = scratch.work();
+    let old = SystemTime::UNIX_EPOCH + Duration::from_secs(OLD_MTIME_S);
+    for (rel, node) in &sc.tree {
+        let p = work.join(rel);
+        if let Some(parent) = p.parent() {
+            std::fs::create_dir_all(parent).expect("create parent dir");
+        }
+        match node {
+            Node::Dir => std::fs::create_dir_all(&p).expect("create dir"),
+            Node::File(b) => {
+                std::fs::write(&p, b).expect("write scenario file");
+                let f = std::fs::OpenOptions::new().write(true).open(&p).expect("reopen scenario file");
+                f.set_modified(old).expect("set mtime");
+            }
+            Node::Symlink(t) => std::os::unix::fs::symlink(t, &p).expect("create symlink"),
+        }
+    }
+    let fakegen = sibling("fakegen");
+    for g in &sc.gens {
+        let p = scratch.gen_path(&g.name);
+        match &g.install {
+            Install::Missing => {}
+            Install::NotExecutable => {
+                std::fs::write(&p, b"#!/bin/sh\nexit 0\n").expect("write non-executable generator");
+                std::fs::set_permissions(&p, std::fs::Permissions::from_mode(0o644)).expect("chmod");
+            }
+            Install::Script(s) => {
+                if std::fs::hard_link(&fakegen, &p).is_err() {
+                    std::fs::copy(&fakegen, &p).expect("copy fakegen (is it built next to mc?)");
+                    std::fs::set_permissions(&p, std::fs::Permissions::from_mode(0o755)).expect("chmod");
+                }
+                std::fs::write(format!("{}.script", p.display()), serde_json::to_vec(&s.to_json()).unwrap()).expect("write script");
+            }
+        }
+    }
+}
+
+fn drain<R: Read + Send + 'static>(mut r: R) -> std::thread::JoinHandle<Vec<u8>> {
+    std::thread::spawn(move || {
+        let mut v = Vec::new();
+        let _ = r.read_to_end(&mut v);
+        v
+    })
+}
+
+/// Run the scenario in a fresh scratch directory (removed afterwards).
+pub fn run(sc: &Scenario, timeout: Duration) -> Obs {
+    let scratch = Scratch::new();
+    run_in(&scratch, sc, timeout)
+}
+
+/// Run the scenario in `scratch` (which must be fresh).
+pub fn run_in(scratch: &Scratch, sc: &Scenario, timeout: Duration) -> Obs {
+    materialise(scratch, sc);
+    let work = scratch.work();
+    let before = snapshot(&work);
+    let argv: Vec<String> = sc.argv.iter().map(|a| expand(a, scratch, sc)).collect();
+
+    let mut cmd = Command::new(sibling("slicec"));
+    cmd.args(&argv)
+        .current_dir(&work)
+        .stdin(Stdio::null())
+        .stdout(Stdio::piped())
+        .stderr(Stdio::piped())
+        .env("NO_COLOR", "1")
+        .env("CLICOLOR_FORCE", "0")
+        .env("CLICOLOR", "0")
+        .env("RUST_BACKTRACE", "0")
+        .process_group(0);
+    for (k, v) in &sc.env {
+        cmd.env(k, expand(v, scratch, sc));
+    }
+    let t0 = Instant::now();
+    let mut child = cmd.spawn().expect("spawn slicec (is it built next to mc?)");
+    let pid = child.id() as i32;
+    let out_h = drain(child.stdout.take().unwrap());
+    let err_h = drain(child.stderr.take().unwrap());
+
+    // watchdog: kills the whole process group (slicec and its generators) when the bound expires
+    let fired = Arc::new(AtomicBool::new(false));
+    let (tx, rx) = std::sync::mpsc::channel::<()>();
+    let fired2 = fired.clone();
+    let wd = std::thread::spawn(move || {
+        if rx.recv_timeout(timeout).is_err() {
+            fired2.store(true, Ordering::SeqCst);
+            unsafe {
+                libc::kill(-pid, libc::SIGKILL);
+                libc::kill(pid, libc::SIGKILL);
+            }
+        }
+    });
+    let status = child.wait().expect("wait for slicec");
+    let wall = t0.elapsed();
+    let _ = tx.send(());
+    let _ = wd.join();
+    let timed_out = fired.load(Ordering::SeqCst);
+    // After slicec is gone, generators it did not wait for (it got EPIPE while writing to them) may still be
+    // finishing: give every started generator a moment to reach the end of its script.
+    let started = |name: &str| std::fs::read(format!("{}.started", scratch.gen_path(name).display())).ok();
+    let done = |name: &str| Path::new(&format!("{}.done", scratch.gen_path(name).display())).exists();
+    let t1 = Instant::now();
+    loop {
+        let pending = sc.gens.iter().any(|g| matches!(g.install, Install::Script(_)) && started(&g.name).is_some() && !done(&g.name));
+        if !pending || timed_out || t1.elapsed() > Duration::from_secs(3) {
+            break;
+        }
+        std::thread::sleep(Duration::from_millis(1));
+    }
+    if timed_out {
+        unsafe { libc::kill(-pid, libc::SIGKILL) };
+    }
+    let stdout = out_h.join().unwrap_or_default();
+    let stderr = err_h.join().unwrap_or_default();
+
+    let gens = sc
+        .gens
+        .iter()
+        .map(|g| {
+            let p = scratch.gen_path(&g.name);
+            let st = started(&g.name);
+            GenObs {
+                name: g.name.clone(),
+                path: p.display().to_string(),
+                started: st.as_ref().map(|b| b.iter().filter(|c| **c == b'\n').count() as u32).unwrap_or(0),
+                stdin: if st.is_some() { Some(std::fs::read(format!("{}.stdin", p.display())).unwrap_or_default()) } else { None },
+                done: done(&g.name),
+            }
+        })
+        .collect();
+    let after = snapshot(&work);
+    let obs = Obs { exit_code: status.code(), signal: status.signal(), timed_out, stdout, stderr, wall, gens, before, after, argv, work_dir: work.display().to_string() };
+    if std::env::var_os("VERIF_E3_DEBUG").is_some() {
+        eprintln!("E3: argv={:?} {}", obs.argv, obs.summary());
+    }
+    obs
+}
+
+// ------------------------------------------------------------------------------------------------------------
+// Wire helpers (Compiler schema: /repo/slice/Compiler/CodeGenerator.slice)
+
+/// varuint62 size: shortest of 1/2/4/8 bytes holding (n << 2) | code.
+pub fn enc_size(n: u64) -> Vec<u8> {
+    ref_var(n as i128, false).expect("size fits 62 bits")
+}
+
+/// string = size + UTF-8 bytes
+pub fn enc_str(s: &str) -> Vec<u8> {
+    enc_raw_str(s.as_bytes())
+}
+
+/// "string" whose bytes need not be UTF-8 (for fault injection)
+pub fn enc_raw_str(b: &[u8]) -> Vec<u8> {
+    let mut o = enc_size(b.len() as u64);
+    o.extend_from_slice(b);
+    o
+}
+
+/// tag end marker of a non-compact struct: varint32 -1
+pub const TAG_END: u8 = 0xFC;
+
+#[derive(Clone, Debug, PartialEq, Eq)]
+pub struct RFile {
+    pub path: String,
+    pub contents: String,
+}
+
+#[derive(Clone, Debug, PartialEq, Eq)]
+pub struct RDiag {
+    /// 0 = Info, 1 = Warning, 2 = Error
+    pub level: u8,
+    pub message: String,
+    pub source: Option<String>,
+}
+
+pub fn rfile(path: &str, contents: &str) -> RFile {
+    RFile { path: path.to_string(), contents: contents.to_string() }
+}
+
+/// Encoding of the generator's reply: `Sequence<GeneratedFile>` then `Sequence<Diagnostic>`.
+pub fn encode_reply(files: &[RFile], diags: &[RDiag]) -> Vec<u8> {
+    let mut o = enc_size(files.len() as u64);
+    for f in files {
+        o.extend(enc_str(&f.path));
+        o.extend(enc_str(&f.contents));
+        o.push(TAG_END);
+    }
+    o.extend(enc_size(diags.len() as u64));
+    for d in diags {
+        o.push(d.source.is_some() as u8); // bit sequence: bit 0 = `source` is present
+        o.push(d.level);
+        o.extend(enc_str(&d.message));
+        if let Some(s) = &d.source {
+            o.extend(enc_str(s));
+        }
+        o.push(TAG_END);
+    }
+    o
+}
+
+/// Decode a reply with the independent reference decoder; `Some((files, diagnostics, consumed))` if a reply
+/// decodes from the start of `bytes` (trailing bytes are reported through `consumed < bytes.len()`).
+pub fn decode_reply(bytes: &[u8]) -> Option<(Vec<RFile>, Vec<RDiag>, usize)> {
+    let mut rd = Rd { b: bytes, pos: 0 };
+    let v = ref_decode(&Ty::Reply, &mut rd).ok()?;
+    let V::Struct(parts) = v else { return None };
+    let (V::Seq(fs), V::Seq(ds)) = (&parts[0], &parts[1]) else { return None };
+    let s = |v: &V| match v {
+        V::Str(s) => s.clone(),
+        _ => String::new(),
+    };
+    let files = fs
+        .iter()
+        .map(|f| match f {
+            V::Struct(p) => RFile { path: s(&p[0]), contents: s(&p[1]) },
+            _ => unreachable!(),
+        })
+        .collect();
+    let diags = ds
+        .iter()
+        .map(|d| match d {
+            V::Struct(p) => RDiag {
+                level: match &p[0] {
+                    V::Int(i) => *i as u8,
+                    _ => 0,
+                },
+                message: s(&p[1]),
+                source: match &p[2] {
+                    V::Str(x) => Some(x.clone()),
+                    _ => None,
+                },
+            },
+            _ => unreachable!(),
+        })
+        .collect();
+    Some((files, diags, rd.pos))
+}
+
+/// Encoding of a generator's own arguments (`Dictionary<string, string>`): size, then key and value strings in
+/// command-line order.
+pub fn encode_arguments(args: &[(String, String)]) -> Vec<u8> {
+    let mut o = enc_size(args.len() as u64);
+    for (k, v) in args {
+        o.extend(enc_str(k));
+        o.extend(enc_str(v));
+    }
+    o
+}
+
+/// A generator's stdin must be `request ++ encode_arguments(own args)`.  Returns the request part if the
+/// captured stdin ends with the expected argument bytes, None otherwise.  (The request is not self-delimiting
+/// from the end, so the split is made by comparing the expected suffix; the caller then demands that the
+/// request part is byte-identical for all generators of the run.)
+pub fn split_request<'a>(stdin: &'a [u8], args: &[(String, String)]) -> Option<&'a [u8]> {
+    let suffix = encode_arguments(args);
+    if stdin.len() >= suffix.len() && stdin[stdin.len() - suffix.len()..] == suffix[..] {
+        Some(&stdin[..stdin.len() - suffix.len()])
+    } else {
+        None
+    }
+}
+
+/// Every request starts with the operation name `"generateCode"` encoded as a string.
+pub fn request_has_operation_name(request: &[u8]) -> bool {
+    request.starts_with(&enc_str("generateCode"))
+}
+
+/// Render a `-G` value: path and `key=value` arguments with ',' and '=' escaped by a backslash.
+pub fn gen_spec(path: &str, args: &[(String, String)]) -> String {
+    fn esc(s: &str) -> String {
+        let mut o = String::new();
+        for c in s.chars() {
+            if c == ',' || c == '=' {
+                o.push('\\');
+            }
+            o.push(c);
+        }
+        o
+    }
+    let mut s = esc(path);
+    for (k, v) in args {
+        s.push(',');
+        s.push_str(&esc(k));
+        if !v.is_empty() {
+            s.push('=');
+            s.push_str(&esc(v));
+        }
+    }
+    s
+}
